@@ -256,20 +256,24 @@ package submission
 //@ func (*Proxy).AddPreChain
 //@ props C17
 //@ site AddPreChain#1 as a
+//@ site RLock#1 as rl
 //@ requires p != nil && rspLatency != nil
-//@ requires [the-active-distributor-is-one-NewDistributor-built] p.dist != nil ==> (ctx != nil && p.dist.usableLl != nil && p.dist.policy != nil && p.dist.pendingLogsPolicy != nil && (!p.dist.rootCompatibilityCheckDisabled ==> p.dist.rootPool != nil))
-//@ ensures [no-distributor-no-scts] old(p.dist) == nil ==> len(result0) == 0 && result1 != nil && !a.called
-//@ ensures [the-distributors-verdict-unchanged] old(p.dist) != nil ==> a.called && result0 == a.res0 && result1 == a.res1
-//@ at a assert [same-chain-to-the-active-distributor] a.d == old(p.dist) && a.rawChain == rawChain && a.loadPendingLogs == loadPendingLogs
+//@ requires [every-distributor-the-proxy-holds-is-one-NewDistributor-built] p.dist != nil ==> (ctx != nil && p.dist.usableLl != nil && p.dist.policy != nil && p.dist.pendingLogsPolicy != nil && (!p.dist.rootCompatibilityCheckDisabled ==> p.dist.rootPool != nil))
+//@ ensures [no-distributor-no-scts] after(rl, p.dist) == nil ==> len(result0) == 0 && result1 != nil && !a.called
+//@ ensures [the-distributors-verdict-unchanged] after(rl, p.dist) != nil ==> a.called && result0 == a.res0 && result1 == a.res1
+//@ at a assert [same-chain-to-the-active-distributor] a.d == after(rl, p.dist) && a.rawChain == rawChain && a.loadPendingLogs == loadPendingLogs
+//@ ensures [the-active-distributor-is-read-under-the-read-lock] rl.called
 
 //@ func (*Proxy).AddChain
 //@ props C17
 //@ site AddChain#1 as a
+//@ site RLock#1 as rl
 //@ requires p != nil && rspLatency != nil
-//@ requires [the-active-distributor-is-one-NewDistributor-built] p.dist != nil ==> (ctx != nil && p.dist.usableLl != nil && p.dist.policy != nil && p.dist.pendingLogsPolicy != nil && (!p.dist.rootCompatibilityCheckDisabled ==> p.dist.rootPool != nil))
-//@ ensures [no-distributor-no-scts] old(p.dist) == nil ==> len(result0) == 0 && result1 != nil && !a.called
-//@ ensures [the-distributors-verdict-unchanged] old(p.dist) != nil ==> a.called && result0 == a.res0 && result1 == a.res1
-//@ at a assert [same-chain-to-the-active-distributor] a.d == old(p.dist) && a.rawChain == rawChain && a.loadPendingLogs == loadPendingLogs
+//@ requires [every-distributor-the-proxy-holds-is-one-NewDistributor-built] p.dist != nil ==> (ctx != nil && p.dist.usableLl != nil && p.dist.policy != nil && p.dist.pendingLogsPolicy != nil && (!p.dist.rootCompatibilityCheckDisabled ==> p.dist.rootPool != nil))
+//@ ensures [no-distributor-no-scts] after(rl, p.dist) == nil ==> len(result0) == 0 && result1 != nil && !a.called
+//@ ensures [the-distributors-verdict-unchanged] after(rl, p.dist) != nil ==> a.called && result0 == a.res0 && result1 == a.res1
+//@ at a assert [same-chain-to-the-active-distributor] a.d == after(rl, p.dist) && a.rawChain == rawChain && a.loadPendingLogs == loadPendingLogs
+//@ ensures [the-active-distributor-is-read-under-the-read-lock] rl.called
 
 // The SCT set as an RFC 6962 s3.3 list: never an empty list, every SCT of the set, in order.
 //@ func ASN1MarshalSCTs
